@@ -231,6 +231,9 @@ pub fn run_c14(ctx: &mut RunCtx) -> RunResult {
             h.inbox.lock().unwrap().clear();
         }
         ctx.log(format!("inject {} {}->{} len={} cond={cond} reference={} cks={:?}", inj.kind, w.m.name(sa), w.m.name(da), inj.bytes.len(), expect.fin.class(), if inj.bytes[4] == 202 { scmp_checksum_ok(&inj.bytes) } else { None }));
+        if inj.bytes[4] == 202 && !inj.malformed {
+            reused_buffer(ctx, &inj.bytes, inj.kind)?;
+        }
         // ---- the real network
         let sim = NetworkSimulator::new(&receivers, &externals, &w.real, false);
         {
@@ -275,6 +278,43 @@ pub fn run_c14(ctx: &mut RunCtx) -> RunResult {
     Ok(())
 }
 
+/// Fault "reused buffer": the SDK's packet-buffer pools hand out buffers that still hold the bytes of an earlier packet
+/// (`PacketBufPool`, used by the SNAP gateway when it builds its SCMP errors). The message a component built is encoded
+/// again by the SDK's encoder into such a buffer (old content drawn); the result must be the same packet, with a valid
+/// checksum, as the encoding into a fresh zeroed buffer.
+pub fn reused_buffer(ctx: &mut RunCtx, b: &[u8], what: &str) -> RunResult {
+    use sciparse::core::convert::TryFromView;
+    use sciparse::core::encode::WireEncode;
+    use sciparse::packet::view::ScionScmpPacketView;
+    let Ok((view, _)) = ScionScmpPacketView::try_from_slice(b) else { return Ok(()) };
+    let Ok(model) = ScionScmpPacket::try_from_view(view) else { return Ok(()) };
+    let Ok(clean) = model.try_encode_to_vec() else { return Ok(()) };
+    let seed = ctx.ch.draw(256) as u8;
+    ctx.fault("reused-buffer");
+    let mut dirty: Vec<u8> = (0..clean.len() + 16).map(|i| seed.wrapping_add((i as u8).wrapping_mul(37)) | 1).collect();
+    let n = match model.try_encode(&mut dirty) {
+        Ok(n) => n,
+        Err(e) => return ctx.violate("C14/reused-buffer/encode-fails", format!("{what}: encoding into a used buffer fails ({e:?}) although encoding into a fresh one succeeds")),
+    };
+    let ty = b.get(refrouter::parse_hdr(b).map(|h| h.hdr_len).unwrap_or(0)).copied().unwrap_or(0);
+    if scmp_checksum_ok(&clean) == Some(true) && scmp_checksum_ok(&dirty[..n]) != Some(true) {
+        return ctx.violate("C14/bad-checksum/reused-buffer", format!("{what}: SCMP message type {ty} encoded into a used buffer (old bytes seed {seed}) has an invalid checksum"));
+    }
+    // Only the SCMP message is compared: C14 speaks about the message (checksum, quote, echo fields). The path meta
+    // header's six reserved bits are not written by the SDK's encoder and do leak old buffer content (DESIGN §8) - no listed
+    // property covers them, so that is counted, not judged.
+    let hl = refrouter::parse_hdr(&clean).map(|h| h.hdr_len).unwrap_or(clean.len());
+    if n != clean.len() || dirty[hl.min(n)..n] != clean[hl..] {
+        let at = dirty[..n].iter().zip(clean.iter()).skip(hl).position(|(a, b)| a != b).map(|x| x + hl).unwrap_or(n.min(clean.len()));
+        return ctx.violate("C14/reused-buffer/message-depends-on-old-content", format!("{what}: SCMP message type {ty} encoded into a used buffer differs from the fresh encoding at byte {at} (message starts at {hl})"));
+    }
+    if dirty[..hl] != clean[..hl] {
+        ctx.probe("reused-buffer-header-reserved-bits-leak");
+    }
+    ctx.probe("reused-buffer-checked");
+    Ok(())
+}
+
 fn judge(ctx: &mut RunCtx, w: &topo::World, inj: &Inj, expect: &crate::Final, rx: &[(usize, Vec<u8>)], rounds: usize, host_as: &[usize]) -> RunResult {
     ctx.checked();
     if rounds > 8 {
@@ -313,6 +353,7 @@ fn judge(ctx: &mut RunCtx, w: &topo::World, inj: &Inj, expect: &crate::Final, rx
                 Some(true) => {}
                 _ => return ctx.violate("C14/bad-checksum", format!("{}: generated SCMP message type {ty} has an invalid checksum", inj.kind)),
             }
+            reused_buffer(ctx, b, inj.kind)?;
             if ty < 128 {
                 // error message
                 ctx.probe("scmp-error-observed");
